@@ -610,6 +610,8 @@ impl Run<'_> {
                     // Same feeds, drains and arena operations, but the bytes that came
                     // through read_n / encode_read are copied in instead: correct.
                     self.push("C17", "C17.output_after_read", format!("{}; with the reader-driven feeds replaced by copies of what the readers delivered the output is correct", detail), usize::MAX);
+                    // ... which also means the bytes depend on the input method that carried a piece.
+                    self.push("C02", "C02.method_dependent", format!("{}; the same bytes fed by copy instead of through read_n/encode_read encode correctly", detail), usize::MAX);
                 } else if self.replica_wire(false) == ref_wire {
                     self.push("C09", "C09.drain_changed_output", format!("{}; the same feeds without drains/arena operations encode correctly", detail), usize::MAX);
                 } else {
@@ -864,7 +866,8 @@ impl Run<'_> {
             (false, None) => true,
             _ => false,
         };
-        if !matches_expected && failed_reads > 0 {
+        let used_reads = steps_copy.iter().any(|(_, o)| o.k == "dfeed" && o.a[0] % 4 >= 2);
+        if !matches_expected && (failed_reads > 0 || used_reads) {
             // Did the failed reads matter?  Same pieces in the same order, but the
             // reader-driven calls are replaced by copies of what the readers
             // delivered (nothing, for the failed ones).
@@ -904,7 +907,7 @@ impl Run<'_> {
                 _ => false,
             };
             if ok2 {
-                vs.push(V { prop: "C17", inv: "C17.decoder_output_after_failed_read", detail: format!("after {} failed read(s) that delivered nothing the decoder's result is wrong; with those calls left out it is right", failed_reads), at: usize::MAX });
+                vs.push(V { prop: "C17", inv: if failed_reads > 0 { "C17.decoder_output_after_failed_read" } else { "C17.decoder_output_after_read" }, detail: format!("the decoder's result is wrong after input through read_n/decode_read ({} failed read(s) that delivered nothing); with the same bytes fed by copy it is right", failed_reads), at: usize::MAX });
             }
         }
         match (accepted, expected) {
